@@ -204,6 +204,7 @@ def run_case(case):
                 if not keep_signals:
                     a_.clear()
                 getlog(a_).clear()
+            held_before = [len((a_.antenna if hasattr(a_, "antenna") else a_).signals) for a_ in ant_list]
             del model_calls[:]
             del trig_calls[:]
             count0 = generator.count
@@ -237,6 +238,10 @@ def run_case(case):
                 if not v.check(len(lg) == len(exp[i]), "each antenna receives exactly one signal per ray solution of every particle passing the weight cut",
                                received=len(lg), expected=len(exp[i]), antenna=i, **geo):
                     continue
+                # ... and holds them afterwards (an off-cone solution is held as an empty signal): that is what the writer's lists line up with
+                held = len((a_.antenna if hasattr(a_, "antenna") else a_).signals) - held_before[i]
+                v.check(held == len(exp[i]), "after the event each antenna holds exactly one signal per ray solution (empty ones for off-cone views included)",
+                        held=held, expected=len(exp[i]), antenna=i, **geo)
                 for rec, (path, offcone, p, psi) in zip(lg, exp[i]):
                     nrecv += 1
                     tof = float(path.tof)
